@@ -166,7 +166,8 @@ fn apply_run(base: &Components, run: &Value) -> Components {
         }),
         _ => {}
     }
-    if let Some(sc) = run.get("scale") {
+    // "scale": energies times c, results logged in units of c; "mul": energies times c, logged as they are
+    if let Some(sc) = run.get("scale").or(run.get("mul")) {
         let k = rat(sc, 1.0) as f32;
         each(&mut c, &|v| v.iter_mut().for_each(|x| *x *= k));
     }
